@@ -45,6 +45,12 @@ theorem concurrent_calls_hold_disjoint_objects (ops : List Op) (i j : Nat) (a b 
     a shared schema is only read -/
 theorem shared_schema_only_read : Gen.schemaWrites = [] := by decide
 
+/-- the closures a schema is made of (tests, transforms, options, coercers, formatters: every function
+    literal of the library that outlives the function building it) write no captured or package-level
+    variable (regenerated go/ast fact): they keep no state between calls, so there is nothing for two
+    concurrent calls of a shared schema to race on inside them -/
+theorem closures_keep_no_state : Gen.closureWrites = [] := by decide
+
 /-- what a call computes does not depend on the previous contents of the objects it was handed
     (every live field is re-initialised): together with exclusive ownership, a call running
     concurrently with others computes what it computes alone -/
